@@ -65,8 +65,17 @@ func configs(prop string, thorough bool) []*Config {
 		// login of the next session of that pid (none of whose events would then be emitted)
 		r := configs("C09", false)[0]
 		r.Name = "C02-under-pid-reuse"
+		// a record of the session arrives before the session's LOGIN record (mid-stream start, late LOGIN record):
+		// it is ignored, and everything from the LOGIN record on is emitted as usual
+		st := &Config{Name: "C02-stray-record-before-the-login-record", CutMode: 1, OSeq: true, OIntact: true, ONoLeak: true, OIdent: true,
+			Sess: []SessDef{
+				{ID: "1", PID: "101", Events: []auparse.AuditMessageType{tEV, tLOGIN, tEV2, tDISP}},
+				{ID: "2", PID: "102", Events: []auparse.AuditMessageType{tEV2, tLOGIN, tEV, tDISP}},
+			},
+			Logins: []LoginDef{{PID: 101}, {PID: 102}},
+		}
 		if !thorough {
-			return []*Config{c, r}
+			return []*Config{c, r, st}
 		}
 		c3 := &Config{Name: "C02-3sess", CutMode: 1, OSeq: true, OIntact: true,
 			Sess: []SessDef{
@@ -76,7 +85,7 @@ func configs(prop string, thorough bool) []*Config {
 			},
 			Logins: []LoginDef{{PID: 101}, {PID: 102}, {PID: 103}},
 		}
-		return []*Config{c, r, c3}
+		return []*Config{c, r, st, c3}
 	case "C10":
 		// C10(a): the production JSON writer under every history of C02's alphabet:
 		// one Write per event, whole event per Write, nothing written twice.
